@@ -1,2 +1,102 @@
--- stub: driver for C03 not written yet
-def main : IO Unit := pure ()
+import CMacVerif.Model.SubgridLayout
+import CMacVerif.Model.Handover
+import CMacVerif.Util.Bits
+import CMacVerif.Inst.Float
+open CMacVerif CMacVerif.Util CMacVerif.SubgridLayout CMacVerif.Handover
+open CMacVerif.Gen.TravelDirections
+
+/-- driver state: the layout, the current `_copies` table, the state after the last `copies` op -/
+structure St where
+  L : Layout := ⟨1, 1, 1, 1, 1, 1, false, false, false⟩
+  have_ : Bool := false
+  levels : List Nat := []
+  cp : Copies := ⟨[], [], []⟩
+
+def int! (s : String) : Int := s.toInt?.getD 0
+
+def showEnt : Option Nat → String
+  | none => "x"
+  | some v => toString v
+
+def showRow (r : List (Option Nat)) : String := " ".intercalate ("row" :: r.map showEnt)
+
+/-- which branch of the second loop of `create_copies` an entry of a copy's row takes -/
+def copyCase (levels : List Nat) (orig : Nat → Nat → Option Nat) (i j : Nat) : String :=
+  if j = 0 then "self" else
+  match orig i j with
+  | none => "outside"
+  | some t =>
+    let level := levels.getD i 0
+    let ngbLevel := levels.getD t 0
+    if ngbLevel = level then "same" else if level > ngbLevel then
+      (if ngbLevel = 0 then "fewer-original-only" else "fewer") else "more"
+
+def dedup (l : List String) : List String := l.foldl (fun acc s => if acc.contains s then acc else acc ++ [s]) []
+
+def layoutTag (L : Layout) : String :=
+  let ax (n : Nat) (p : Bool) : String := (if p then "p" else "o") ++ (if n ≥ 3 then "3+" else toString n)
+  s!"{ax L.nx L.px}.{ax L.ny L.py}.{ax L.nz L.pz}"
+
+def step (s : St) : List String → St × String
+  | ["tbl", "o2i", d] => (s, s!"tbl {outToInDir (nat! d)}")
+  | ["tbl", "cout", sp, d] => (s, s!"tbl {if compatOutAt (nat! sp) (nat! d) then 1 else 0}")
+  | ["tbl", "cin", sp, d] => (s, s!"tbl {if compatInAt (nat! sp) (nat! d) then 1 else 0}")
+  | ["tbl", "mask", m] => (s, s!"tbl {maskDir (nat! m)}")
+  | ["tbl", "pin", d] => (s, s!"tbl {pinAt (nat! d) 0} {pinAt (nat! d) 1} {pinAt (nat! d) 2}")
+  | ["tbl", "idx", d] => (s, s!"tbl {idxClassAt (nat! d) 0} {idxClassAt (nat! d) 1} {idxClassAt (nat! d) 2}")
+  | ["outdir", mx, my, mz, i, j, k] =>
+    let r := outputDirection (nat! mx, nat! my, nat! mz) (int! i, int! j, int! k)
+    (s, s!"outdir {r} #outdir-{r}")
+  | ["upd", d, mx, my, mz, hx, hy, hz, px, py, pz] =>
+    let r := updatePosition (nat! d) ((nat! mx).toFloat, (nat! my).toFloat, (nat! mz).toFloat)
+      (fOfBits (nat! hx), fOfBits (nat! hy), fOfBits (nat! hz)) (fOfBits (nat! px), fOfBits (nat! py), fOfBits (nat! pz))
+    (s, s!"upd {showF r.1} {showF r.2.1} {showF r.2.2} #upd-{pinAt (nat! d) 0}{pinAt (nat! d) 1}{pinAt (nat! d) 2}")
+  | ["new", nx, ny, nz, mx, my, mz, px, py, pz] =>
+    let L : Layout := ⟨nat! nx, nat! ny, nat! nz, nat! mx, nat! my, nat! mz, px == "1", py == "1", pz == "1"⟩
+    let s' : St := { L := L, have_ := true, levels := List.replicate L.size 0,
+                     cp := ⟨List.replicate L.size noCopy, [], (List.range L.size).map (createSubgrid L)⟩ }
+    (s', s!"new {L.size} #layout-{layoutTag L}")
+  | ["pos", i] =>
+    if !s.have_ then (s, "bad-op") else
+    let p := gridPosition s.L (nat! i)
+    (s, s!"pos {p.1} {p.2.1} {p.2.2}")
+  | ["row", i] =>
+    if !s.have_ then (s, "bad-op") else
+    let idx := nat! i
+    let n := s.L.size
+    if idx ≥ s.cp.rows.length then (s, "row none") else
+    let r := s.cp.rows.getD idx []
+    let tag :=
+      if idx < n then
+        let k := (r.filter (·.isNone)).length
+        if k = 0 then "orig-interior" else if k = 26 then "orig-isolated" else "orig-boundary"
+      else
+        let o := originalOf s.cp idx
+        "copy:" ++ ",".intercalate (dedup ((List.range 27).map (copyCase s.levels (ngb s.L) o)))
+    (s, showRow r ++ " #" ++ tag)
+  | ["ngb6", i] =>
+    if !s.have_ then (s, "bad-op") else
+    let l := getNeighbours s.L (nat! i)
+    (s, " ".intercalate ("ngb6" :: l.map toString) ++ s!" #ngb6-{l.length}")
+  | "copies" :: ls =>
+    if !s.have_ || ls.length ≠ s.L.size then (s, "bad-op") else
+    let levels := ls.map nat!
+    let cp := createCopies s.L s.cp.copies levels
+    let s' := { s with levels := levels, cp := cp }
+    let stale := (List.zip levels s.cp.copies).any (fun (l, c) => l = 0 && c ≠ noCopy)
+    (s', s!"copies {cp.rows.length} | " ++ " ".intercalate (cp.copies.map toString) ++ " |"
+      ++ String.join (cp.originals.map (fun o => " " ++ toString o))
+      ++ (if stale then " #copies-stale" else if cp.originals.isEmpty then " #copies-none" else " #copies"))
+  | ["range", i] =>
+    if !s.have_ then (s, "bad-op") else
+    let r := copyRange s.cp (nat! i)
+    let c := s.cp.copies.getD (nat! i) 0
+    let tag := if c = noCopy then "range-nocopy" else if r.1 = r.2 then "range-stale" else "range"
+    (s, s!"range {r.1} {r.2} #{tag}")
+  | ["fold"] =>
+    if !s.have_ then (s, "bad-op") else
+    let v := foldVisits s.cp
+    (s, "fold" ++ String.join (v.map (fun (a, b) => s!" {a}:{b}")) ++ (if v.isEmpty then " #fold-empty" else " #fold"))
+  | _ => (s, "bad-op")
+
+def main : IO Unit := runDriver step ({} : St)
